@@ -26,6 +26,9 @@ C={
  'C20':('exploration','spy-session trace monitor plus server fid-table comparison',
         'Operation sequences on CFileSys over a spy Session in front of the real SFileSys: every operation must issue exactly the corresponding call on the entry own fid with normalised names, completed walks must yield usable entries, and the server fid table (hook) must always equal the fids of live entries and be empty at the end.',
         'trusted: spy accounting of entry->fid; reference path normaliser; hook'),
+ 'C14':('exploration','controlled-schedule stress with overlap monitor, deadlock (quiescence) detector, fid-lock hook, porcupine linearizability checking and the Go race detector',
+        'Concurrent histories on the real SFileSys are produced by a gate inside the instrumented FS that releases one parked FS call at a time whenever every other goroutine is parked (PRNG choice), plus free-running histories; judged by the FS overlap/release monitors, a goroutine-state deadlock detector, the fid-table hook (no fid left locked), porcupine v1.3.0 against a non-deterministic sequential fid-table model, and race reports in sfilesys.go.',
+        'trusted: path-based sequential model (props/c14.go) and its relations; interleavings inside the session own critical sections are left to the Go scheduler + race detector; porcupine timeouts are inconclusive'),
  'C16':('exploration','exhaustive bounded enumeration against an independent stepwise resolver',
         'All name lists of length 0-4 over an 11-symbol alphabet of special forms x 4 directories are enumerated at run time (exhaustive for that space) plus sampled longer lists; every helper result is compared with a 20-line reference resolver.',
         'trusted: reference resolver; directories canonical'),
